@@ -213,13 +213,16 @@ PolyAll(ps) == Concat([i \in 1..Len(ps) |-> PolyImage(ps[i])])
 PolyClause(c, wrote) ==
     IF StoredExactly(wrote, c.addr, PolyAll(c.pieces)) THEN "ok" ELSE "PolyLayout"
 
-\* LED timing sequence.  content: [timings: Seq([time 1..255, r, g, b, leds 0..15, fade 0..1, rotate 0..7])]
+\* LED timing sequence.  content: [timings: Seq([time 0..255, r, g, b, leds 0..15, fade 0..1, rotate 0..7])]
 LedEntry(t) == LET r5 == ((t.r * 249 + 1014) \div 2048) % 32
                    g6 == ((t.g * 253 + 505) \div 1024) % 64
                    b5 == ((t.b * 249 + 1014) \div 2048) % 32
                    led == r5 * 2048 + g6 * 32 + b5
                IN <<t.time, led \div 256, led % 256, t.leds + 16 * t.fade + 32 * t.rotate>>
-LedAll(ts) == Concat([i \in 1..Len(ts) |-> LedEntry(ts[i])]) \o <<0, 0, 0, 0>>
+\* a step whose four bytes are all zero would read as the terminator: it cannot be stored and is
+\* left out; every other step (also one of duration 0) is stored
+LedAll(ts) == Concat([i \in 1..Len(ts) |-> IF LedEntry(ts[i]) = <<0, 0, 0, 0>> THEN <<>> ELSE LedEntry(ts[i])])
+              \o <<0, 0, 0, 0>>
 LedClause(c, wrote) ==
     IF StoredExactly(wrote, 0, LedAll(c.timings)) THEN "ok" ELSE "LedLayout"
 
